@@ -256,6 +256,20 @@ pub fn invalid_menu(m: &Model) -> Vec<InvalidCase> {
             ));
         }
     }
+    // the id of the most recently added annotation (the holder is the last item of its store)
+    if let Some(a) = m.anns.iter().flatten().filter(|a| a.id.is_some()).last() {
+        if m.anns.iter().flatten().find(|a| a.id.is_some()).map(|f| f.id != a.id).unwrap_or(false) {
+            v.push(mk(
+                "duplicate-annotation-id:newest",
+                Some(good_t.clone()),
+                good_d.clone(),
+                a.id.clone(),
+                Some(good_t.clone()),
+                good_d.clone(),
+                nid.clone(),
+            ));
+        }
+    }
     v
 }
 
@@ -479,11 +493,16 @@ impl C14 {
             }
         }
         // duplicate resource / dataset ids
+        let newest_res = m.res.iter().flatten().last().map(|x| x.id.clone()).unwrap_or_else(|| r.clone());
         for (name, op) in [
             ("duplicate-resource-id", Op::AddRes { id: r.clone(), text: "other text".into() }),
+            ("duplicate-resource-id:newest", Op::AddRes { id: newest_res.clone(), text: "other text".into() }),
             ("duplicate-dataset-id", Op::AddSet { id: "s0".into() }),
         ] {
             if name == "duplicate-dataset-id" && m.set_idx("s0").is_none() {
+                continue;
+            }
+            if name == "duplicate-resource-id:newest" && newest_res == r {
                 continue;
             }
             self.probes.fetch_add(1, Ordering::Relaxed);
